@@ -14,6 +14,8 @@ import (
 	"fmt"
 	"strings"
 	"time"
+
+	"github.com/jub0bs/cors"
 )
 
 type Intent struct {
@@ -36,6 +38,13 @@ type C02Plan struct {
 	Cfg     Cfg          `json:"cfg"`
 	Intents []Intent     `json:"intents"`
 	Alts    []Alteration `json:"alterations"`
+	// How the debug-off and the debug-on middleware reach (Cfg, mode): 0 fresh
+	// NewMiddleware; 1 zero value + Reconfigure; 2 configured with Other, mode
+	// set, then Reconfigure(Cfg); 3 through passthrough and back; 4 via
+	// Reconfigure(Config()); 5 after a rejected Reconfigure. The verdict must not
+	// depend on the route (nor, by the property, on the mode).
+	Routes [2]int `json:"routes"`
+	Other  *Cfg   `json:"other,omitempty"`
 }
 
 type c02 struct{}
@@ -69,7 +78,7 @@ func (c02) FaultKinds() []string {
 	return []string{"F5_ows", "F5_empty_elements", "F5_split_lines", "F5_empty_line"}
 }
 func (c02) Probes() []string {
-	return []string{"verdict_success", "verdict_fail_preflight", "verdict_fail_actual", "preflight_needed", "no_preflight_needed", "debug_on_failing_preflight", "authorization_under_star", "credentialed_intent", "pna_intent", "method_normalised", "altered_preflight_sent"}
+	return []string{"verdict_success", "verdict_fail_preflight", "verdict_fail_actual", "preflight_needed", "no_preflight_needed", "debug_on_failing_preflight", "authorization_under_star", "credentialed_intent", "pna_intent", "method_normalised", "altered_preflight_sent", "state_reached_via_history_route"}
 }
 
 var c02HeaderUniverse = []string{"authorization", "content-type", "x-foo", "x-bar", "x-baz-qux", "accept", "cache-control", "x-a", "x-requested-with", "x-not-listed",
@@ -164,6 +173,11 @@ func (c02) Gen(r *R, tier string) any {
 	n := r.Range(1, 4)
 	for i := 0; i < n; i++ {
 		p.Intents = append(p.Intents, genIntent(r, p.Cfg))
+	}
+	if r.P(0.5) {
+		o := genCfg(r)
+		p.Other = &o
+		p.Routes = [2]int{r.Intn(6), r.Intn(6)}
 	}
 	k := r.Intn(4)
 	kinds := []string{"ows_left", "ows_right", "ows_both", "empty", "split", "split", "empty_line"}
@@ -518,15 +532,91 @@ func permits(c Cfg, in Intent) (bool, string) {
 	return true, ""
 }
 
+// viaRoute builds a middleware that is in state (cfg, debug) by the given route.
+func viaRoute(route int, cfg Cfg, other *Cfg, debug bool, c *Ctx) (m *cors.Middleware, ok bool) {
+	if other == nil {
+		route = 0
+	}
+	pan := catch(func() {
+		cc := cfg.Config()
+		switch route {
+		default:
+			var err error
+			if m, err = cors.NewMiddleware(cc); err != nil {
+				return
+			}
+			m.SetDebug(debug)
+		case 1:
+			m = new(cors.Middleware)
+			if m.Reconfigure(&cc) != nil {
+				m = nil
+				return
+			}
+			m.SetDebug(debug)
+		case 2:
+			var err error
+			if m, err = cors.NewMiddleware(other.Config()); err != nil {
+				m = nil
+				return
+			}
+			m.SetDebug(debug)
+			if m.Reconfigure(&cc) != nil {
+				m = nil
+			}
+		case 3:
+			var err error
+			if m, err = cors.NewMiddleware(cc); err != nil {
+				return
+			}
+			m.SetDebug(!debug)
+			m.Reconfigure(nil)
+			c2 := cfg.Config()
+			if m.Reconfigure(&c2) != nil {
+				m = nil
+				return
+			}
+			m.SetDebug(debug)
+		case 4:
+			var err error
+			if m, err = cors.NewMiddleware(cc); err != nil {
+				return
+			}
+			m.SetDebug(debug)
+			if m.Reconfigure(m.Config()) != nil {
+				m = nil
+			}
+		case 5:
+			var err error
+			if m, err = cors.NewMiddleware(other.Config()); err != nil {
+				m = nil
+				return
+			}
+			m.SetDebug(debug)
+			bad := plantAll(cfg, []Planted{{Kind: 8}, {Kind: 5, Arg: 1}})
+			bc := bad.Config()
+			m.Reconfigure(&bc)
+			if m.Reconfigure(&cc) != nil {
+				m = nil
+			}
+		}
+	})
+	if pan != "" || m == nil {
+		return nil, false
+	}
+	if route != 0 {
+		c.hit("state_reached_via_history_route")
+	}
+	return m, true
+}
+
 func (c02) Exec(plan any, c *Ctx) *Violation {
 	p := plan.(*C02Plan)
-	mOff, err, pan := newMW(p.Cfg)
-	if err != nil || pan != nil {
+	mOff, ok1 := viaRoute(p.Routes[0], p.Cfg, p.Other, false, c)
+	mOn, ok2 := viaRoute(p.Routes[1], p.Cfg, p.Other, true, c) // live state, set through the public API
+	if !ok1 || !ok2 {
 		c.hit("generator_rejected")
 		return nil
 	}
-	mOn, _, _ := newMW(p.Cfg)
-	mOn.SetDebug(true) // live state, set through the public API
 	srvOff, srvOn := newServer(mOff.Wrap), newServer(mOn.Wrap)
 	for _, in := range p.Intents {
 		want, why := permits(p.Cfg, in)
@@ -630,6 +720,18 @@ func (c02) Shrink(plan any) []any {
 			q.Intents = append([]Intent{}, p.Intents...)
 			q.Intents[i].Method = "GET"
 			out = append(out, &q)
+		}
+	}
+	if p.Other != nil {
+		q := *p
+		q.Other, q.Routes = nil, [2]int{}
+		out = append(out, &q)
+		for i := range p.Routes {
+			if p.Routes[i] != 0 {
+				q := *p
+				q.Routes[i] = 0
+				out = append(out, &q)
+			}
 		}
 	}
 	for _, sc := range shrinkCfg(p.Cfg) {
